@@ -527,6 +527,15 @@ try:
             if got.get(name, []) != alone[name]:
                 bad.append({"order": [x, y], "file": name, "alone": len(alone[name]), "in_run": len(got.get(name, [])),
                             "problem": "findings of a file depend on the other file of the run"})
+    # reuse: ONE orchestrator object, one file per call, in both orders (a long-lived Linter / library use)
+    for x, y in (("script", "Tiltfile"), ("Tiltfile", "script"), ("a.py", "notes.txt"), ("run", "script")):
+        n += 1
+        o = fresh(tmp)
+        first = per_file(o.lint_files([tmp / x])).get(x, [])
+        second = per_file(o.lint_files([tmp / y])).get(y, [])
+        if first != alone[x] or second != alone[y]:
+            bad.append({"calls": [x, y], "problem": "findings of a file depend on an earlier call on the same orchestrator",
+                        "alone": [len(alone[x]), len(alone[y])], "got": [len(first), len(second)]})
     # recognised languages that a linter does not support: duplicated brace-style code in Go / Java / Rust files, with
     # the (cross-file) DRY linter switched on -- DRY is documented for Python, TypeScript and JavaScript only; Go and Java
     # have no source-analysis linter at all
@@ -545,6 +554,44 @@ try:
         file_level = v.rule_id.startswith(("file-header", "file-placement"))
         if (ext in (".go", ".java") and not file_level) or (ext == ".rs" and v.rule_id.startswith("dry.")):
             bad.append({"file": Path(v.file_path).name, "rule": v.rule_id, "problem": "a linter reports on a language it does not support"})
+    # "running or configuring other linters never changes X's findings": an ILL-TYPED value in the section of one linter
+    # (its rule then fails or misbehaves on its own) must leave the findings of every OTHER linter on the same file
+    # exactly as they are with a clean configuration
+    busy = tmp / "busy.py"
+    busy.write_text("import re\n\n\ndef busy(items, limit):\n    out = ''\n    print('busy', limit)\n    for item in items:\n"
+                    "        if item:\n            for part in item:\n                if part > 4711:\n                    while limit:\n"
+                    "                        if limit > 1234:\n                            return part * 5678\n                        limit -= 1\n"
+                    "        out += str(item)\n        if re.match('a+', out):\n            continue\n    return out\n", encoding="utf-8")
+    def by_linter(cfg):
+        o = Orchestrator(project_root=tmp)
+        o.config = cfg
+        out = {}
+        for v in o.lint_files([busy]):
+            if not v.rule_id.startswith(("dry.", "stringly-typed")):
+                out.setdefault(v.rule_id.split(".")[0], []).append(json.dumps(v.to_dict(), sort_keys=True, default=str))
+        return {k: sorted(x) for k, x in out.items()}
+    clean = by_linter({})
+    if len(clean) < 4:
+        bad.append({"problem": f"the probe file triggers only {sorted(clean)}"})
+    ILL_TYPED = {"magic-numbers": {"allowed_numbers": 5}, "nesting": {"max_nesting_depth": "deep"}, "srp": {"max_methods": "many"},
+                 "file-header": {"ignore": 5}, "improper-logging": {"ignore": 7}, "performance": {"enabled": []},
+                 "method-property": {"max_body_statements": "few"}, "lbyl": {"enabled": {}}, "cqs": {"ignore_methods": 3},
+                 "stateless-class": {"min_methods": "two"}, "collection-pipeline": {"min_continues": "one"},
+                 "lazy-ignores": {"enabled": "?"}, "file-placement": {"directories": 3}}
+    for section, value in ILL_TYPED.items():
+        n += 1
+        try:
+            got = by_linter({section: value})
+        except ValueError:
+            continue  # the linter REJECTS the value: a configuration error ends the run (exit 2), by design
+        except Exception as e:  # noqa
+            bad.append({"section": section, "value": value, "problem": f"an ill-typed value in one section aborts the whole run: {e!r}"[:200]})
+            continue
+        owner = {"improper-logging": "improper-logging", "performance": "performance"}.get(section, section)
+        for linter in sorted(set(clean) | set(got)):
+            if linter != owner and got.get(linter, []) != clean.get(linter, []):
+                bad.append({"section": section, "value": value, "linter": linter, "clean": len(clean.get(linter, [])),
+                            "now": len(got.get(linter, [])), "problem": "another linter's section changes this linter's findings"})
     # EVERY linter command on a directory that holds only files of unrecognised types (prose with temporal wording, data,
     # shell / stylesheet / build files, python-looking text without a python extension or shebang): no command may report
     # anything -- at the observation point of the property (CLI, --format json, exit code)
@@ -588,7 +635,9 @@ def c15_language_per_file(ctx):
     extensions); every file alone gets the documented treatment, and in every ordered pair of files each file's
     per-file findings are exactly those it gets alone (language detection has no memory across files); duplicated code
     in Go / Java / Rust files gets no finding from linters that do not support those languages; and every linter command
-    of the CLI, run on a directory of 9 files of unrecognised types, reports nothing and exits 0. The symbolic
+    of the CLI, run on a directory of 9 files of unrecognised types, reports nothing and exits 0; an ill-typed value in
+    the configuration section of one linter (13 sections) leaves every other linter's findings on a probe file
+    unchanged (non-interference: Orchestrator._execute_rules contains a failing rule). The symbolic
     counterpart is the contract of Orchestrator.lint_file (contracts/c10_orchestrator.py: language == detect_language_spec
     of that file) together with detect_language (contracts/c15_language.py)."""
     import time
@@ -606,6 +655,6 @@ def c15_language_per_file(ctx):
                  "model_inputs": {"stderr": (p.stderr or "")[-1500:]}, "ms": round((time.time() - t0) * 1000)}]
     bad = res["bad"]
     return [{"name": name, "kind": "bounded", "verdict": "passed" if not bad else "refuted", "tool": "cpython differential",
-             "budget": "9 file kinds alone + all 72 ordered pairs; duplicated Go/Java/Rust files with DRY on; every linter command on 9 unknown-type files", "cases": res["cases"],
+             "budget": "9 file kinds alone + all 72 ordered pairs; duplicated Go/Java/Rust files with DRY on; every linter command on 9 unknown-type files; 13 ill-typed sections of other linters", "cases": res["cases"],
              "note": "" if not bad else f"{bad[:2]}", "witness_confirmed": bool(bad),
              "model_inputs": {"disagreements": bad} if bad else None, "ms": round((time.time() - t0) * 1000)}]
